@@ -110,6 +110,22 @@ def gen_cases(ctx, scale=1.0):
             c['refuse'] = [rng.choice(['reader', 'janitor'] + [f'hasher{i+1}' for i in range(threads)])]
             c['fault'] = 'refuse-' + ('vital' if c['refuse'][0] in ('hasher1', 'janitor') else 'other')
         cases.append(c)
+    # 2a. a transient out-of-memory burst (the handler shrinks the piece queue; it must keep a bound of at least 1) and
+    #     LATER a stop request: the further work after the request stays bounded
+    for _ in range(int(ctx.n(200, 5000) * scale)):
+        threads = rng.choice([1, 1, 2, 3])
+        cap = 3 * threads
+        npieces = rng.choice([8 * cap, 20 * cap, 40 * cap])
+        c = base(threads, npieces, rng.choice(['generate', 'verify']), nfiles=1)
+        c['read_fault'] = rng.randint(1, 6)
+        c['read_fault_kind'] = 'memory'
+        # (the handler acts at most every 0.1 s of the clock, which advances 1/64 s per look of the reader: any number of
+        #  consecutive failures up to well beyond the point where the unchanged handler gives up)
+        c['read_fault_burst'] = rng.randint(1, 8 * cap + 8)
+        k = rng.randint(min(npieces - 1, cap + 4), max(cap + 5, npieces // 2))
+        c['cb'] = {'table': {str(k): rng.choice(['cancel', 'raise'])}}
+        c['fault'] = 'oom-burst-then-stop'
+        cases.append(c)
     # 2b. verification of a tree with many damaged small files (about one piece each), the callback asks to stop at
     #     an early report: the error items behind the stop request must neither be raised (they belong to the callback,
     #     the run returns False) nor keep the reader going
